@@ -839,13 +839,20 @@ func c11Instances(add func(*Instance), thorough bool, inv int) {
 			}
 			add(&Instance{Func: "VerifC11Aggregate", Params: with(base, "g", g, "lst", l, "w", 1)})
 			// other chunk kinds (run chunks; anchored arrays for the xor / bitmap kernels)
-			if l == 123 || l == 12 {
+			if (l == 123 || l == 12) && g != 2 {
 				add(&Instance{Func: "VerifC11Aggregate", Params: with(base, "g", g, "lst", l, "w", 1, "ac1", 224, "bc0", 224, "akeys", 4, "bkeys", 4, "ckeys", 4,
 					"ac0", 21, "bc1", 22, "cc0", 21, "xb", 56, "xm", 15), Tier: inv})
 			}
 		}
 	}
 	// goroutine-based aggregates: worker counts 0..3, keys at the top of the key space, interleaved, wide and narrow spans
+	// several keys inside one work chunk, the third member inserting a key below and a key above an accumulated one
+	for g := 5; g <= 7; g++ {
+		for _, w := range []int{1, 2} {
+			add(&Instance{Func: "VerifC11Aggregate", Params: with(base, "g", g, "lst", 123, "w", w, "akeys", 13, "bkeys", 13, "ck", 2, "ckeys", 14,
+				"ac0", 21, "ac1", 21, "bc0", 21, "bc1", 22, "cc0", 21, "cc1", 21, "xb", 56, "xm", 15)})
+		}
+	}
 	keyPats := [][2]int{{7, 8}, {4, 5}, {6, 4}, {8, 7}}
 	for g := 5; g <= 7; g++ {
 		for _, kp := range keyPats {
